@@ -43,6 +43,7 @@ class Gen:
         self.bare = 0.0  # probability that a setup/launch statement is a bare launch on a visible state instead
         self.before = False  # the module holds ANOTHER function of the same form in front of @f (each function is compiled as if alone)
         self.callee = False  # the module DEFINES a function @h that programs the accelerators; @f calls it without annotation
+        self.statearg = False  # @f receives the current state of each accelerator as an ARGUMENT (unknown contents); first setups link to it
         self.readcall = 0.0  # probability that a pure-arithmetic statement is instead a call returning a value (impure input of setups)
         self.nested = 0.0  # probability that a loop body is "setup/launch/await of one accelerator, then an inner loop of the same form"
         self._plan = []
@@ -96,7 +97,9 @@ class Gen:
         params = ", ".join(f'"{f}" = {chosen[f]} : i32' for f in fs)
         frm = ""
         hist = cur.setdefault("_hist_" + acc, [])
-        if self.prethread and hist and self.r.random() < 0.6:
+        if self.statearg and not hist and ind == "  " and self.r.random() < 0.8:
+            frm = f" from %sa_{acc}"
+        elif self.prethread and hist and self.r.random() < 0.6:
             # pre-existing threading: mostly the real predecessor, sometimes a STALE link to an older state of the accelerator
             # (the tracer has to re-link every setup to the setup that really precedes it)
             frm = f" from {self.r.choice(hist) if self.r.random() < 0.4 else hist[-1]}"
@@ -305,7 +308,8 @@ class Gen:
             self.focus_acc = self.r.choice(self.accs)
         body = self.block(args, self.depth, "  ", self.r.randint(3, 8) if self.focus else self.r.randint(2, 5), {})
         sig = ", ".join([f"%x{i} : i32" for i in range(NARGS)] + ["%c0 : i1", "%c1 : i1"]
-                        + [f"%{n}{b} : index" for b in range(NBOUNDS) for n in ("lb", "ub", "st")])
+                        + [f"%{n}{b} : index" for b in range(NBOUNDS) for n in ("lb", "ub", "st")]
+                        + ([f"%sa_{a} : {st_ty(a)}" for a in self.accs] if self.statearg else []))
         helper = ""
         if self.callee:
             # a helper that itself programs every accelerator (and calls nothing unmarked)
@@ -695,6 +699,8 @@ def run_func(f: func.FuncOp, args, hook=None, calltag=None, universe=()):
     for k in universe:
         m.regs[k] = INIT
     env = {a: v for a, v in zip(f.body.block.args, args)}
+    for a in f.body.block.args[len(args):]:
+        env[a] = "state"  # a state handed in by the caller: the registers hold unknown values
     run_block(f.body.block, env, m)
     return m.trace
 
